@@ -90,6 +90,8 @@ def parseFrame (w : String) : Option Frame :=
   | ["l", p, r] => some (.lib (strOfHex p) (nat! r))
   | ["r", a] => some (.raw (nat! a))
   | ["e", c] => some (.elided (nat! c))
+  | ["j", n] => some (.label (strOfHex n))
+  | ["x", n] => some (.tlabel (strOfHex n))
   | _ => none
 
 def parseFrames (ws : List String) : Option (List Frame) :=
@@ -101,7 +103,10 @@ def outStacks (threads : List OThread) (pid tid trel : Nat) : List (List String)
   (threads.filter (fun t => baseOf t.pid == pid && baseOf t.tid == tid)).flatMap
     (fun t => (t.samples.filter (fun s => s.1 == trel)).map (·.2))
 
-def judgeStacks (check : List Frame → List Frame → Bool) (what : String) (ops impl : List String) : Bool × String :=
+/-- `check orig out` decides one stack; `tag orig out` is prepended to the failure message (reason tags of
+known findings) -/
+def judgeStacks (check : List Frame → List Frame → Bool) (tag : List Frame → List Frame → String) (what : String)
+    (ops impl : List String) : Bool × String :=
   match parse ops, parseOut impl with
   | some (cfg, rs), some threads =>
     if cfg.reuse then (true, "not-applicable") else
@@ -109,6 +114,10 @@ def judgeStacks (check : List Frame → List Frame → Bool) (what : String) (op
     -- known finding C02-fork-onto-live-pid: failures of such histories carry the tag
     let ontoLive := Life.forkOntoLive cfg.ref rs
     let tagFor := fun (pid : Nat) => if ontoLive.contains pid then "[fork-onto-live-pid] " else ""
+    let fail (pre : String) (whatT : String) (frames : List Frame) (cands : List (List String)) : String :=
+      let got := (cands.headD [])
+      let tg := match parseFrames got with | some fs => tag frames fs | none => ""
+      s!"{pre}{tg}{whatT}: expected {showFrames (frames.take 6)} (depth {frames.length}) got {" ".intercalate (got.take 6)} (depth {got.length})"
     let rec go : List (Nat × Nat × Nat × List Frame) → Bool × String
       | [] => (true, "ok")
       | (pid, tid, t, frames) :: rest =>
@@ -116,17 +125,58 @@ def judgeStacks (check : List Frame → List Frame → Bool) (what : String) (op
         if cands.isEmpty then (false, s!"{tagFor pid}no output sample for accepted sample pid {pid} tid {tid} t {t}")
         else if cands.any (fun ws => match parseFrames ws with | some fs => check frames fs | none => false)
         then go rest
-        else (false, s!"{tagFor pid}{what}: sample pid {pid} tid {tid} t {t}: expected {showFrames (frames.take 6)} (depth {frames.length}) got {" ".intercalate ((cands.headD []).take 6)}")
-    go exp
+        else (false, fail (tagFor pid) s!"{what}: sample pid {pid} tid {tid} t {t}" frames cands)
+    -- `--per-cpu-threads`: the copy on the CPU's thread and the copy on the combined thread (pid 0, tid 0) carry
+    -- the thread label in front of the same frames; the depth limiter sees label :: frames
+    let rec goCpu : List (Nat × Nat × Option String × List Frame) → Bool × String
+      | [] => (true, "ok")
+      | (cpu, t, lb, frames) :: rest =>
+        let okFor := fun (tid : Nat) =>
+          let cands := outStacks threads 0 tid (t - cfg.ref)
+          if cands.any (fun ws => match parseFrames ws with
+              | some (.tlabel l :: fs) => (match lb with | some want => l == want | none => true) &&
+                  check (.tlabel l :: frames) (.tlabel l :: fs)
+              | _ => false)
+          then none
+          else some (fail "" s!"{what} (per-CPU copy on tid {tid}, label {lb}): sample t {t}"
+                      (.tlabel (lb.getD "?") :: frames) cands)
+        match okFor cpu, okFor 0 with
+        | none, none => goCpu rest
+        | some e, _ => (false, e)
+        | _, some e => (false, e)
+    match go exp with
+    | (true, _) => goCpu (expectedCpuStacks cfg rs)
+    | r => r
   | none, _ => (false, "bad-op")
   | _, none => (false, s!"unparsable implementation output: {impl.take 2}")
 
 /-- C02: frames equal the declarative attribution (stacks below the depth limit), root first -/
 def judgeC02 (ops impl : List String) : Bool × String :=
-  judgeStacks (fun orig out => if orig.length < 500 then out == orig else elisionOk orig out) "attribution" ops impl
+  judgeStacks (fun orig out => if orig.length < 500 then out == orig else elisionOk orig out) (fun _ _ => "")
+    "attribution" ops impl
 
-/-- C14: the output stack is an admissible shortening of the declaratively attributed stack -/
+/-- Reason tags of the two recorded deviations of the depth limiter (it decides by the *recorded* length
+while label frames come on top): the tag is attached to a failure of the full statement only if the output is
+otherwise faithful —
+
+* `[js-label-depth]`: the original (emitted) stack contains JS label frames, and either the recorded depth is
+  below 500 and the stack reached the profile unchanged, or everything but the two upper bounds on the depth
+  holds (`elisionOkButDepth`);
+* `[percpu-label-499]`: a per-CPU copy (thread label + 499 recorded frames = 500 frames) reached the profile
+  unchanged. -/
+def tagC14 (orig out : List Frame) : String :=
+  let nrec := (orig.filter (fun f => match f with | .label _ => false | .tlabel _ => false | _ => true)).length
+  if elisionOk orig out then "" else
+  if orig.any isLabel then
+    (if (decide (nrec < 500) && out == orig) || elisionOkButDepth orig out then "[js-label-depth] " else "")
+  else match orig with
+    | .tlabel _ :: _ => if nrec == 499 && out == orig then "[percpu-label-499] " else ""
+    | _ => ""
+
+/-- C14: the output stack is an admissible shortening of the declaratively attributed stack — the full
+statement `elisionOk` on the complete frame list that would reach the profile without the limiter (JS label
+frames and the per-CPU thread label included). -/
 def judgeC14 (ops impl : List String) : Bool × String :=
-  judgeStacks elisionOk "elision" ops impl
+  judgeStacks elisionOk tagC14 "elision" ops impl
 
 end ConvJudge
